@@ -1,45 +1,47 @@
 import OxiddModel.Mtbdd.Model
+import OxiddModel.Num.Ieee
 /-!
-# C10 — `F64` terminals (executable only, *tested*, not proved)
+# C10 — `F64` terminals on bit patterns, computed by the exact binary64 model
 
 `crates/oxidd-rules-mtbdd/src/terminal/f64.rs`: an `f64` whose NaNs are all normalised to
 `f64::NAN` and whose `-0.0` is normalised to `0.0`, compared and hashed by bit pattern.  A value is
-represented here by its bit pattern (`UInt64`), the arithmetic is Lean's `Float` (the platform's
-IEEE-754 double), which is opaque to the kernel: nothing is proved about this instance; the lifted
-theorems take `TerminalLaws f64Ops` as a hypothesis and the harness tests those laws on a boundary
-set by bit pattern.
+represented here by its bit pattern (`UInt64`, as before), but the arithmetic is no longer Lean's
+opaque `Float`: a pattern is decoded to a datum of the exact model `Num/Ieee.lean` (`dec`), the
+IEEE-754 operation of that model is applied, the result normalised and encoded (`norm`).  Everything
+is kernel-reducible; the laws `TerminalLaws f64Ops F64.Normal` that used to be a hypothesis are
+proved in `Mtbdd/PropertiesF64Bits.lean` (by transfer from `Mtbdd/PropertiesF64.lean`).  The stream
+`mtbdd` compares these functions with the Rust `F64` bit for bit, as before.
 -/
 namespace OxiddModel.Mtbdd.F64
+open OxiddModel.Num
 
 def NAN_BITS : UInt64 := 0x7ff8000000000000
 def NEG_ZERO_BITS : UInt64 := 0x8000000000000000
 
+/-- `f64::from_bits` -/
+def dec (b : UInt64) : Ieee.V := Ieee.ofBits b.toNat
+
+/-- `f64::to_bits` of a model datum (the one `nan` is `f64::NAN`) -/
+def enc (x : Ieee.V) : UInt64 := UInt64.ofNat (Ieee.toBits x)
+
 /-- `impl From<f64> for F64` followed by `to_bits` -/
-def norm (x : Float) : UInt64 :=
-  if x.isNaN then NAN_BITS
-  else if x.toBits = NEG_ZERO_BITS then 0
-  else x.toBits
+def norm (x : Ieee.V) : UInt64 := enc (Ieee.normalise x)
 
 /-- normalisation of an arbitrary bit pattern (`F64::from(f64::from_bits(b))`) -/
-def ofBits (b : UInt64) : UInt64 := norm (Float.ofBits b)
+def ofBits (b : UInt64) : UInt64 := norm (dec b)
 
-def add (a b : UInt64) : UInt64 := norm (Float.ofBits a + Float.ofBits b)
-def sub (a b : UInt64) : UInt64 := norm (Float.ofBits a - Float.ofBits b)
-def mul (a b : UInt64) : UInt64 := norm (Float.ofBits a * Float.ofBits b)
-def div (a b : UInt64) : UInt64 := norm (Float.ofBits a / Float.ofBits b)
+def add (a b : UInt64) : UInt64 := norm (Ieee.add (dec a) (dec b))
+def sub (a b : UInt64) : UInt64 := norm (Ieee.sub (dec a) (dec b))
+def mul (a b : UInt64) : UInt64 := norm (Ieee.mul (dec a) (dec b))
+def div (a b : UInt64) : UInt64 := norm (Ieee.div (dec a) (dec b))
 
 /-- `impl PartialOrd for F64` -/
 def partialCmp (a b : UInt64) : Option Ordering :=
   if a = NAN_BITS then
     if b = NAN_BITS then some .eq else none
   else
-    let x := Float.ofBits a
-    let y := Float.ofBits b
-    -- `f64::partial_cmp`
-    if x < y then some .lt
-    else if x > y then some .gt
-    else if x == y then some .eq
-    else none
+    -- `f64::partial_cmp`: unordered if an operand is a NaN (of any payload)
+    if dec a = .nan ∨ dec b = .nan then none else Ieee.pcmp (dec a) (dec b)
 
 end F64
 
